@@ -24,8 +24,9 @@ def run(ctx):
     if not ctx.quick():
         reqs.append(("c03", "enum", "4", "0", "5000"))
     reqs.append(("c03", "rand", str(ctx.seed), "4000" if ctx.quick() else "80000", "7"))
+    reqs.append(("c03", "specs", str(ctx.seed), "2500" if ctx.quick() else "50000"))
     cases = S.fetch(reqs)
-    ctx.rule("all derivation sequences of length <=%d over {*, * const, [], [3], [*], (), (int a, char *b), (a, b)} x 11 contexts (file, typedef, block, parameter, member, for-init, cast, sizeof, _Alignof, compound literal, multi-declarator) with rotating base specifiers (exhaustive, Lean enumerator) + random sequences up to length 7 over the full alphabet (3 pointer-qualifier sets, 9 array forms, 6 parameter forms); distinct by text" % (3 if ctx.quick() else 4))
+    ctx.rule("all derivation sequences of length <=%d over {*, * const, [], [3], [*], (), (int a, char *b), (a, b)} x 11 contexts (file, typedef, block, parameter, member, for-init, cast, sizeof, _Alignof, compound literal, multi-declarator) with rotating base specifiers (exhaustive, Lean enumerator) + random sequences up to length 7 over the full alphabet (3 pointer-qualifier sets, 9 array forms, 6 parameter forms); + declaration specifiers (storage class, function specifier, qualifiers, multi-keyword type specifiers) in every order; distinct by text" % (3 if ctx.quick() else 4))
     S.check_against_spec(ctx, cases, "C03")
 
 
